@@ -357,7 +357,9 @@ def run(ctx: core.Ctx) -> None:
     ctx.assumptions += ['strict JSON: json.loads with a duplicate-key-rejecting hook; one event = one line', 'structure (keys, nesting, value kinds) must equal that of the benign run']
     pool = mp.Pool(min(16, os.cpu_count() or 1))
     try:
-        for job, (viols, outcome) in zip(inj, pool.imap(run_injection, inj, chunksize=2)):
+        ires = pool.map(run_injection, inj, chunksize=2)
+        core.replay_check(ctx, pool, run_injection, inj, ires, stride=16)
+        for job, (viols, outcome) in zip(inj, ires):
             ctx.count('executions')
             ctx.count('nontrivial')
             ctx.add_to_set('outcomes', outcome)
